@@ -82,3 +82,10 @@ add("C13",
     "Trusted: CrossHair/z3; instance generator; bad-value catalogue; 'declared bounds' = c_cardinality; classes whose generated instance is not accepted are excluded by name in the evidence.",
     "DESIGN.md 3/C13")
 NOT_APPLICABLE.pop("C13", None)
+
+add("C12",
+    "CrossHair symbolic execution of SamlBase._to_element_tree -> create_class_from_element_tree per schema class with symbolic attribute/text values, symbolic child-presence mask and foreign content; generic structural comparison",
+    "For each of the 281 core classes (quick; all ~1140 classes in thorough) and every attribute/text string <= 3 chars, every 6-bit subset of declared children, list cardinality 1-2 and foreign attribute/child present or not: parse(serialise(x)) has the same type, attributes, text, children and extension content, children are emitted in declared order, and re-serialising gives an equal tree.",
+    "Trusted: CrossHair/z3; element-tree level (tostring/expat are C and outside); empty text treated as absent.",
+    "DESIGN.md 3/C12")
+NOT_APPLICABLE.pop("C12", None)
